@@ -196,6 +196,15 @@ def monOp (op : String) (args : List String) : Option String :=
       pure ((d, v), ts)) nq ts
     some (verdict (monClaim until_ cursor lps paid (if hasQ then some q else none)))
   | "mon_claim_rejected" => some "viol C06-claim-blocked"
+  | "mon_ss_lp" => do
+    -- <pool before> <n> <amounts after…> <supply before> <supply after>
+    let (p, ts) ← pPool args
+    let (n, ts) ← pNat ts
+    let (after, ts) ← pRepeat pNat n ts
+    let (sb, ts) ← pNat ts
+    let (sa, _) ← pNat ts
+    let amp := match p.ptype with | .stable a => a | .cp => 1
+    some (verdict (monSsLp amp p.decimals (p.assets.map (·.amount)) after sb sa))
   | "mon_twin_c14" => do
     -- single-asset deposit (A) vs swap-half-then-deposit (B): same reserves, LP supply, LP to the
     -- receiver / locked, fees to the collector; the odd unit stays in the pool manager in A
